@@ -683,13 +683,102 @@ def probe(case):
 # ---- registry cases: a fresh TypeRegistry shared by threads that look up (and, rarely, register) ------
 
 NCLS = 8
+RATTRS = ["x", "y"]
+
+
+def _rworld():
+    """the class hierarchy the registry cases talk about (built inside the worker)"""
+    class M(type):
+        pass
+
+    class A:  # 0
+        pass
+
+    class B(A):  # 1
+        x = 1
+
+    class C(B):  # 2
+        pass
+
+    class D(A, metaclass=M):  # 3
+        y = 2
+
+    class E(D):  # 4
+        pass
+
+    class F:  # 5
+        pass
+
+    class G(C, F):  # 6
+        pass
+
+    class H(F):  # 7   may carry a shortcut converter
+        pass
+
+    return [A, B, C, D, E, F, G, H], [M]
+
+
+def _rdetectors(classes):
+    A, B, C, D, E, F, G, H = classes
+
+    def d0(c):
+        if c is F:
+            raise TypeError("no")
+        return issubclass(c, B)
+
+    def d1(c):
+        if c in (A, E):
+            raise ValueError("no")
+        return c in (D, G)
+
+    def d2(c):
+        return True
+
+    return [d0, d1, d2]
+
+
+def rbuild_tables():
+    classes, metas = _rworld()
+    dets = _rdetectors(classes)
+    t = {"issub": [], "isinst": [], "hasattr": [], "custom": []}
+    for i, c in enumerate(classes):
+        for j, k in enumerate(classes):
+            if issubclass(c, k):
+                t["issub"].append([i, j])
+        for j, m in enumerate(metas):
+            if isinstance(c, m):
+                t["isinst"].append([i, j])
+        for j, a in enumerate(RATTRS):
+            if hasattr(c, a):
+                t["hasattr"].append([i, j])
+        for k, d in enumerate(dets):
+            try:
+                v = 1 if d(c) else 0
+            except (TypeError, ValueError):
+                v = 2
+            t["custom"].append([k, i, v])
+    return t
+
+
+def rgen_reg(rng, fn):
+    r = {"fn": fn, "prio": rng.choice([0, 0, 0, 0, 1, 1, 2, -1, 5]), "meta": None, "attr": None, "custom": None}
+    if rng.random() < 0.12:
+        r.update(custom=rng.randrange(3), classes=[], sub=True)
+        return r
+    ncl = rng.choice([0, 1, 1, 1, 1, 2])
+    r["classes"] = rng.sample(range(NCLS), ncl)
+    r["sub"] = rng.random() < 0.7
+    r["meta"] = 0 if rng.random() < (0.6 if ncl == 0 else 0.1) else None
+    r["attr"] = rng.randrange(2) if rng.random() < (0.6 if ncl == 0 else 0.1) else None
+    if ncl == 0 and r["meta"] is None and r["attr"] is None:
+        r["attr"] = rng.randrange(2)
+    return r
 
 
 def _registry_env(case):
     from utype.utils.base import TypeRegistry
-    from . import c16
-    classes, metas = c16._world()
-    dets = c16._custom_detectors(classes)
+    classes, metas = _rworld()
+    dets = _rdetectors(classes)
     fns = {}
 
     def fn(n):
@@ -721,7 +810,7 @@ def _registry_env(case):
                 if r.get("meta") is not None:
                     kw["metaclass"] = metas[r["meta"]]
                 if r.get("attr") is not None:
-                    kw["attr"] = c16.ATTRS[r["attr"]]
+                    kw["attr"] = RATTRS[r["attr"]]
             reg.register(*cl, priority=r["prio"], **kw)(fn(r["fn"]))
             return {"reg": True}
         except _Abort:
@@ -1009,8 +1098,7 @@ def gen_threads(rng, prog, n):
 
 
 def gen_registry(rng, nthreads=2, with_reg=False):
-    from . import c16
-    init = [c16.gen_reg(rng, 100 + i) for i in range(rng.randint(0, 3))]
+    init = [rgen_reg(rng, 100 + i) for i in range(rng.randint(0, 3))]
     threads = []
     for t in range(nthreads):
         ops = [{"res": rng.randrange(NCLS)} for _ in range(rng.randint(1, 3))]
@@ -1018,7 +1106,7 @@ def gen_registry(rng, nthreads=2, with_reg=False):
     for _ in range(with_reg if isinstance(with_reg, int) and not isinstance(with_reg, bool) else (1 if with_reg else 0)):
         t = rng.randrange(nthreads)
         k = rng.randint(0, len(threads[t]))
-        threads[t] = (threads[t][:k] + [{"reg": c16.gen_reg(rng, 500 + rng.randrange(50))}] + threads[t][k:])[:3]
+        threads[t] = (threads[t][:k] + [{"reg": rgen_reg(rng, 500 + rng.randrange(50))}] + threads[t][k:])[:3]
     # make lookups collide: the same class from several threads
     if rng.random() < 0.7:
         c = rng.randrange(NCLS)
@@ -1041,8 +1129,7 @@ _RTABLES = None
 def registry_tables():
     global _RTABLES
     if _RTABLES is None:
-        from . import c16
-        _RTABLES = c16.build_tables()
+        _RTABLES = rbuild_tables()
     return _RTABLES
 
 
